@@ -213,7 +213,7 @@ func (wk *worker) concretise(c *Case) {
 	c.Conc = &Conc{
 		Tag:      fmt.Sprintf("%s-%d", c.ID, wk.opts.Seed),
 		AudForm:  []string{"string", "array"}[rng.Intn(2)],
-		ScpForm:  []string{"scp-array", "scope-string", "scope-array"}[rng.Intn(3)],
+		ScpForm:  []string{"scp-array", "scope-string", "scope-array", "scp-and-scope"}[rng.Intn(4)],
 		Strategy: []string{"list", "exact", "hierarchic", "wildcard"}[rng.Intn(4)],
 		Cache:    []string{"default", "off"}[rng.Intn(2)],
 		Extra:    rng.Int63(),
